@@ -27,6 +27,10 @@ import (
 //   /s*  blocks on a gate (virtual sleep d, or "until the timeout response has been set"), then performs the scenario's
 //        late operations on ctx (header+body, Write, TimeoutError again, status+close, body reads), yielding in between
 //   /t*  calls ctx.TimeoutError("SELF") itself and then performs the late operations
+//   /r*  builds resp := AcquireResponse() (503, "RESP:<path>", X-TR header), calls ctx.TimeoutErrorWithResponse(resp) and then
+//        does with resp what the scenario's rop says: nothing / ReleaseResponse / deferred ReleaseResponse / Reset /
+//        overwrite status+body / return and keep writing it from a goroutine that is still running. The client must get
+//        exactly the response as it was at the time of the call.
 // Oracle (per response on the wire, in request order): a request that must time out gets exactly (code,msg); a /f
 // request gets the reference bytes of its own request (computed once through ServeConn on a scripted connection with
 // the unwrapped handler); 429 is accepted only if at least Concurrency wrapped handlers were running when the wrapper
@@ -45,6 +49,7 @@ type c16scn struct {
 	reqs      []c16req
 	d         time.Duration // gate of /s handlers: sleep d; 0 = wait until ctx.timeoutResponse is set
 	ops       string        // late operations of /s and /t handlers
+	rop       byte          // what a /r handler does with the *Response after passing it to TimeoutErrorWithResponse
 	serveConn bool          // ServeConn-only server (never passed to Serve)
 	stream    bool          // StreamRequestBody
 	size      byte          // 'M': bound 1 in both tiers
@@ -58,6 +63,7 @@ type c16obs struct {
 	entryLateRet []int // timed-out handlers that had returned by then (their slot may or may not be released yet)
 	lateReturned int
 	admitted     int // wrapper calls that were not turned away with 429
+	bg           int // goroutines started by /r handlers that are still running
 	hStarted     int
 	running      int
 	maxRunning   int
@@ -128,7 +134,7 @@ func c16handler(o *c16obs, sc c16scn) RequestHandler {
 			o.maxRunning = o.running
 		}
 		defer func() {
-			if ctx.timeoutResponse != nil && p[1] != 't' {
+			if ctx.timeoutResponse != nil && p[1] == 's' {
 				o.lateReturned++
 			}
 			o.running--
@@ -137,6 +143,39 @@ func c16handler(o *c16obs, sc c16scn) RequestHandler {
 		case 'f':
 			mcrt.Yield() // a state in which this handler is running (for the invariant)
 			ctx.SetBodyString("ok:" + p)
+		case 'r':
+			resp := AcquireResponse()
+			resp.SetStatusCode(StatusServiceUnavailable)
+			resp.SetBodyString("RESP:" + p)
+			resp.Header.Set("X-TR", p)
+			if sc.rop == 'D' {
+				defer ReleaseResponse(resp)
+			}
+			ctx.TimeoutErrorWithResponse(resp)
+			mcrt.Covered("handler-called-timeouterrorwithresponse")
+			mcrt.Yield()
+			switch sc.rop {
+			case 'R':
+				ReleaseResponse(resp)
+			case 'Z':
+				resp.Reset()
+			case 'L':
+				resp.SetStatusCode(StatusOK)
+				resp.SetBodyString("late:" + p)
+				resp.Header.Set("X-Late", p)
+			case 'G':
+				o.bg++
+				mcrt.GoNamed("late-writer", func() {
+					defer func() { o.bg-- }()
+					mcrt.Yield()
+					resp.SetBodyString("late-goroutine:" + p)
+					mcrt.Yield()
+					resp.SetStatusCode(StatusOK)
+					resp.Header.Set("X-Late", p)
+					mcrt.Yield()
+					ReleaseResponse(resp)
+				})
+			}
 		case 't':
 			ctx.TimeoutError("SELF")
 			mcrt.Covered("handler-called-timeouterror-itself")
@@ -274,7 +313,7 @@ func c16body(sc c16scn) func() {
 			c := pc.Conn1()
 			c.Write(c16wire(sc.reqs)) //nolint:errcheck
 			read(c)
-			mcrt.WaitUntil("handlers-done", func() bool { return o.running == 0 })
+			mcrt.WaitUntil("handlers-done", func() bool { return o.running == 0 && o.bg == 0 })
 			return
 		}
 		ln := fasthttputil.NewInmemoryListener()
@@ -289,7 +328,7 @@ func c16body(sc c16scn) func() {
 		c.Write(c16wire(sc.reqs)) //nolint:errcheck
 		read(c)
 		c.Close()
-		mcrt.WaitUntil("handlers-done", func() bool { return o.running == 0 })
+		mcrt.WaitUntil("handlers-done", func() bool { return o.running == 0 && o.bg == 0 })
 	}
 }
 
@@ -362,6 +401,20 @@ func c16check(sc c16scn, ref []c16resp) func(x *mcrt.Exec) (string, string, stri
 					return strings.Join(cls, ","), "later-response-differs-from-reference", fmt.Sprintf("response %d (%s) is %q, reference %q; %s", i, rq.path, r.raw, ref[i].raw, ctxt())
 				}
 				cls = append(cls, "ok")
+			case 'r':
+				if isTimeout {
+					cls = append(cls, "timeout-before-own-response")
+					break
+				}
+				if r.status == StatusServiceUnavailable && r.body == "RESP:"+rq.path && strings.Contains(strings.ToLower(r.head), "x-tr: "+rq.path) && !late {
+					cls = append(cls, "own-timeout-response")
+					break
+				}
+				what := map[byte]string{'n': "did nothing more with it", 'R': "released it (ReleaseResponse)", 'D': "released it in a deferred call", 'Z': "reset it", 'L': "overwrote its status and body", 'G': "returned and kept writing it from a goroutine"}[sc.rop]
+				if late {
+					return strings.Join(cls, ","), "write-to-response-after-timeouterrorwithresponse-reaches-wire", fmt.Sprintf("request %d (%s): the handler passed a 503 \"RESP:%s\" response to TimeoutErrorWithResponse and then %s; the client received the later content: %q; %s", i, rq.path, rq.path, what, r.raw, ctxt())
+				}
+				return strings.Join(cls, ","), "response-passed-to-timeouterrorwithresponse-not-sent-as-set", fmt.Sprintf("request %d (%s): the handler passed a 503 \"RESP:%s\" response to TimeoutErrorWithResponse and then %s; the client received %q; %s", i, rq.path, rq.path, what, r.raw, ctxt())
 			case 't':
 				if isTimeout {
 					cls = append(cls, "timeout-before-self")
@@ -417,8 +470,8 @@ func c16check(sc c16scn, ref []c16resp) func(x *mcrt.Exec) (string, string, stri
 func TestVerif_C16(t *testing.T) {
 	r := vrt.Begin(t, "C16", "model_checking")
 	defer r.End()
-	r.Rule("real Server.Serve (InmemoryListener) with Handler = TimeoutWithCodeHandler(h, T, msg, code), Concurrency 1-2, one connection with 2-3 pipelined requests; h blocks on a gate (virtual sleep before/at/after T, or until the timeout response is set) and then keeps mutating ctx (header+body, Write, TimeoutError again, status+close, PostBody/RequestBodyStream reads), or calls TimeoutError itself; " +
-		"all schedules, select choices and timer-first orders up to the deviation bound; oracle per response: must-time-out requests get exactly (code,msg), /f requests the reference bytes of their own request, 429 only with >= Concurrency running wrapped handlers, no late write anywhere on the wire, running handlers <= Concurrency at every step; non-trivial: executions with >=1 deviation")
+	r.Rule("real Server.Serve (InmemoryListener) with Handler = TimeoutWithCodeHandler(h, T, msg, code), Concurrency 1-2, one connection with 2-3 pipelined requests; h blocks on a gate (virtual sleep before/at/after T, or until the timeout response is set) and then keeps mutating ctx (header+body, Write, TimeoutError again, status+close, PostBody/RequestBodyStream reads), or calls TimeoutError itself, or passes an acquired *Response to TimeoutErrorWithResponse and then leaves / releases / defers the release of / resets / overwrites it or keeps writing it from a goroutine that outlives the handler; " +
+		"all schedules, select choices and timer-first orders up to the deviation bound; oracle per response: must-time-out requests get exactly (code,msg), a response passed to TimeoutErrorWithResponse arrives exactly as it was at the call, /f requests the reference bytes of their own request, 429 only with >= Concurrency running wrapped handlers, no late write anywhere on the wire, running handlers <= Concurrency at every step; non-trivial: executions with >=1 deviation")
 	r.Assume("mcrt shim semantics (litmus-tested)", "sync.Pool modelled as deterministic LIFO", "set-up (Serve start, dial) sequentialised", "plain unsynchronised accesses of the abandoned ctx are C37's subject: late operations are atomic between their Yield points")
 	b := vrt.Pick(r, 1, 2)
 	forced := false
@@ -443,6 +496,13 @@ func TestVerif_C16(t *testing.T) {
 		{size: 'M', name: "conc1/T1s/gate/ops-A/s,f,f", conc: 1, T: sec, code: 408, ops: "A", reqs: []c16req{G("/s1"), G("/f2"), G("/f3")}},
 		{size: 'M', name: "conc2/T1s/gate/ops-A/s,s,f", conc: 2, T: sec, code: 408, ops: "A", reqs: []c16req{G("/s1"), G("/s2"), G("/f3")}},
 		{size: 'M', name: "conc2/T1s/gate/ops-A/head-s,f", conc: 2, T: sec, code: 408, ops: "A", reqs: []c16req{{"HEAD", "/s1", ""}, G("/f2")}},
+		{size: 'M', name: "conc2/T1s/resp-untouched/r,f", conc: 2, T: sec, code: 408, rop: 'n', reqs: []c16req{G("/r1"), G("/f2")}},
+		{size: 'M', name: "conc2/T1s/resp-released/r,f", conc: 2, T: sec, code: 408, rop: 'R', reqs: []c16req{G("/r1"), G("/f2")}},
+		{size: 'M', name: "conc2/T1s/resp-deferred-release/r,f", conc: 2, T: sec, code: 408, rop: 'D', reqs: []c16req{G("/r1"), G("/f2")}},
+		{size: 'M', name: "conc2/T1s/resp-reset/r,f", conc: 2, T: sec, code: 408, rop: 'Z', reqs: []c16req{G("/r1"), G("/f2")}},
+		{size: 'M', name: "conc2/T1s/resp-overwritten/r,f", conc: 2, T: sec, code: 408, rop: 'L', reqs: []c16req{G("/r1"), G("/f2")}},
+		{size: 'M', name: "conc2/T1s/resp-written-by-goroutine/r,f", conc: 2, T: sec, code: 408, rop: 'G', reqs: []c16req{G("/r1"), G("/f2")}},
+		{size: 'M', name: "conc1/T1s/resp-released/r,r,f", conc: 1, T: sec, code: 408, rop: 'R', reqs: []c16req{G("/r1"), G("/r2"), G("/f3")}},
 		{name: "conc1/T1s/f,f", conc: 1, T: sec, code: 408, reqs: []c16req{G("/f1"), G("/f2")}},
 		{name: "serveconn-only/T1s/f,f", conc: 2, T: sec, code: 408, serveConn: true, reqs: []c16req{G("/f1"), G("/f2")}},
 	}
